@@ -19,6 +19,7 @@ def sh(cmd, cwd=None, timeout=7200):
 def verify(name, wt, prop):
     d = os.path.join(VERIF, "seeded", name)
     os.makedirs(d, exist_ok=True)
+    sh("git add -N src", cwd=wt)  # new source files belong to the patch
     rc, diff = sh("git diff -- src", cwd=wt)
     if not diff.strip():
         sys.exit("no source change in the worktree")
